@@ -21,6 +21,7 @@ Python → Lean
 * `byte_bounds`, `offset`, `order`, `strides`, `total_buffer_len` of `_reduce_memmap_backed` : `byteBounds`,
   `reduceMemmapBacked`; where the rebuilt view (`make_memmap` / `as_strided`) finds element `idx` :
   `rebuiltElemOffset`; where the original has it : `originalElemOffset`
+* `ArrayMemmapForwardReducer.__call__`'s choice (reuse the backing memmap / dump and memmap / pickle by value) : `forwardReduce`
 Constants `NUMPY_ARRAY_ALIGNMENT_BYTES`, `BUFFER_SIZE` come from the regenerated table.
 
 numpy itself (`nditer`, `tobytes`, `frombuffer`, `memmap`, `as_strided`, `.flags`) is a parameter: the model
@@ -258,5 +259,26 @@ def originalElemOffset (a m : Arr) (m_offset : Nat) (idx : List Nat) : Int :=
 /-- Number of bytes the rebuilt base maps from `offset` (`total_buffer_len` items). -/
 def mappedBytes (r : Reduced) (itemsize : Nat) : Option Int :=
   r.total_buffer_len.map (· * itemsize)
+
+/-! ### `ArrayMemmapForwardReducer.__call__`: what happens to an array argument sent to a process worker -/
+
+inductive Forward
+  | reuseBacking     -- `_reduce_memmap_backed(a, m)`: the worker maps the user's file
+  | dumpAndMemmap    -- dumped to the temp folder, the worker loads it with `mmap_mode`
+  | plainPickle      -- `NotImplemented`: pickled by value
+deriving DecidableEq, Repr, Inhabited
+
+/-- `get_memmapping_reducers` registers the reducer for the exact types `np.ndarray` and `np.memmap` only
+(`registeredType`; an `np.matrix` argument is pickled by value). Then `ArrayMemmapForwardReducer.__call__`:
+`if m is not None and isinstance(m, np.memmap): … ; if not a.dtype.hasobject and max_nbytes is not None
+and a.nbytes > max_nbytes: … else: NotImplemented`. -/
+def forwardReduce (registeredType backedByMemmap hasobject : Bool) (max_nbytes : Option Nat) (nbytes : Nat) :
+    Forward :=
+  if !registeredType then .plainPickle
+  else if backedByMemmap then .reuseBacking
+  else if !hasobject && (match max_nbytes with
+      | none => false
+      | some m => decide (nbytes > m)) then .dumpAndMemmap
+  else .plainPickle
 
 end JoblibModel.ArrayFormat
